@@ -106,7 +106,7 @@ CLAIMED = {
              "FineContour.reverse, closest_approach, FineContour.getDistance (argmin, neighbour choice, weighting), FineContour.interpFunction (scipy interp1d with extrapolation: searchsorted, clip, chord). Theorems over R: calcDistance is the polygon length (0 at the first point, each "
              "increment the segment length, any number of points), at least the chord between any two points, strictly increasing iff no consecutive points coincide, the TRUE arc length on a "
              "straight contour however the points are spaced; reverse's cached distance equals recomputation on the reversed points; getDistance lies between the distances of two ADJACENT fine "
-             "points and is exact at a fine point; a point placed by interpFunction at distance s lies ON the polygon at the fraction where the polygon length is s, and getDistance measures exactly s for it when it selects the two ends of that segment (placing and measuring are inverse). FineContour.equaliseSpacing is modelled with refine as a parameter (theories/Model_Equalise.v): in ANY arithmetic the iteration stops after at most finecontour_maxits rounds, stops without the warning only when the spacing passes the tolerance test, and never moves the points at startInd / endInd. The PrimFloat instance of the same definitions is run bit for bit against the real methods (320 / 3000 cases per run; equaliseSpacing with refine stubbed to the identity on contours of at most 8 points, where numpy.mean sums from the left).",
+             "points and is exact at a fine point; a point placed by interpFunction at distance s lies ON the polygon at the fraction where the polygon length is s, and getDistance measures exactly s for it when it selects the two ends of that segment (placing and measuring are inverse). FineContour.equaliseSpacing is modelled with refine as a parameter (theories/Model_Equalise.v): in ANY arithmetic the iteration stops after at most finecontour_maxits rounds, stops without the warning only when the spacing passes the tolerance test, and never moves the points at startInd / endInd. The PrimFloat instance of the same definitions is run bit for bit against the real methods (320 / 3000 cases per run; equaliseSpacing with refine stubbed to the identity, contours of 3 to 146 points: numpy's pairwise summation inside numpy.mean is modelled in all three regimes).",
         note="Trusted: Coq kernel + Reals axioms (distance theorems); fingerprints + hand models; the arc-length contract of FineContour (polygon vs true arc between fine points) is monitored (3% threshold, observed <= 1.6%), X-point half cells excluded; "
              "quadratic convergence in finecontour_Nfine is not claimed by the quick tier.",
         technique="Coq proof (list lemmas, finite tables; reals for the distance kernels) on hand models + bit-exact PrimFloat correspondence + source fingerprints + grid oracle", design="6/C05"),
